@@ -65,22 +65,38 @@ def main():
             if rc:
                 raise SystemExit("existing tests fail with the change in %s:\n%s" % (p, o[-2000:]))
         # demonstration
-        demos = [f for f in os.listdir(src) if f.endswith("_test.go")]
+        # demonstration files: in the root of the mutant dir (they belong to <demo package dir>) and/or in a
+        # sub-tree mirroring the repository layout (internal/...)
+        demos = []  # (source path, package dir relative to the repository root)
+        for root, _, files in os.walk(src):
+            for f in files:
+                if f.endswith("_test.go"):
+                    rel = os.path.relpath(root, src)
+                    demos.append((os.path.join(root, f), demopkg if rel == "." else rel))
         if not demos:
             raise SystemExit("no demonstration test file in " + src)
-        tests = []
-        for f in demos:
-            shutil.copy(os.path.join(src, f), os.path.join(wt, demopkg, f))
-            tests += re.findall(r"^func (Test\w+)\(", open(os.path.join(src, f)).read(), re.M)
-        runre = "^(" + "|".join(tests) + ")$"
-        d, rel = moddir(demopkg)
-        rc_with, o_with = sh(["go", "test", "-vet=off", "-count=1", "-run", runre, rel], d)
+        bypkg = {}
+        for path, pkg in demos:
+            shutil.copy(path, os.path.join(wt, pkg, os.path.basename(path)))
+            bypkg.setdefault(pkg, []).extend(re.findall(r"^func (Test\w+)\(", open(path).read(), re.M))
+
+        def run_demos():
+            rc_all, out_all = 0, ""
+            for pkg, tests in bypkg.items():
+                d, rel = moddir(pkg)
+                rc, o = sh(["go", "test", "-vet=off", "-count=1", "-run", "^(" + "|".join(tests) + ")$", rel], d)
+                if rc and "address already in use" in o:
+                    rc, o = sh(["go", "test", "-vet=off", "-count=1", "-run", "^(" + "|".join(tests) + ")$", rel], d)
+                rc_all, out_all = rc_all or rc, out_all + o
+            return rc_all, out_all
+        rc_with, o_with = run_demos()
         sh(["git", "apply", "-R", patch], wt)
-        rc_without, o_without = sh(["go", "test", "-vet=off", "-count=1", "-run", runre, rel], d)
+        rc_without, o_without = run_demos()
         sh(["git", "apply", patch], wt)
-        for f in demos:
-            os.remove(os.path.join(wt, demopkg, f))
-        meta["demo"] = {"tests": tests, "package": demopkg, "with_change_rc": rc_with, "without_change_rc": rc_without,
+        for path, pkg in demos:
+            os.remove(os.path.join(wt, pkg, os.path.basename(path)))
+        tests = sorted(t for ts in bypkg.values() for t in ts)
+        meta["demo"] = {"tests": tests, "packages": sorted(bypkg), "with_change_rc": rc_with, "without_change_rc": rc_without,
                         "with_change_tail": o_with[-400:]}
         if rc_with == 0 or rc_without != 0:
             raise SystemExit("demonstration does not discriminate: with=%d without=%d\n%s\n%s" % (rc_with, rc_without, o_with[-1500:], o_without[-1500:]))
@@ -107,8 +123,10 @@ def main():
         out = os.path.join(V, "seeded", "%s-%s" % (pid, slug))
         os.makedirs(out, exist_ok=True)
         shutil.copy(patch, os.path.join(out, "patch.diff"))
-        for f in demos:
-            shutil.copy(os.path.join(src, f), os.path.join(out, f))
+        for path, pkg in demos:
+            dst = os.path.join(out, os.path.relpath(path, src))
+            os.makedirs(os.path.dirname(dst), exist_ok=True)
+            shutil.copy(path, dst)
         for f in ("notes.md", "demo.md"):
             if os.path.exists(os.path.join(src, f)):
                 shutil.copy(os.path.join(src, f), os.path.join(out, f))
